@@ -116,17 +116,23 @@ func (tt *testTrie) allUnmatched() map[string]struct{} {
 }
 
 func (tt *testTrie) findUnmatched(prefix string, unmatched map[string]struct{}) {
+	tt.findUnmatchedBelow(prefix, prefix == "", unmatched)
+}
+
+// findUnmatchedBelow reports the unmatched patterns at and below this node.
+// An empty prefix is ambiguous: it is the prefix of the root, but also of the
+// node for a leading empty component (patterns like "/a" or ""). So atRoot
+// tells them apart; otherwise "/a" would be reported as "a".
+func (tt *testTrie) findUnmatchedBelow(prefix string, atRoot bool, unmatched map[string]struct{}) {
 	if tt.present && tt.matched.Load() == 0 {
 		unmatched[prefix] = struct{}{}
 	}
 	for next, child := range tt.children {
-		var childPrefix string
-		if prefix == "" {
-			childPrefix = next
-		} else {
+		childPrefix := next
+		if !atRoot {
 			childPrefix = prefix + "/" + next
 		}
-		child.findUnmatched(childPrefix, unmatched)
+		child.findUnmatchedBelow(childPrefix, false, unmatched)
 	}
 }
 
